@@ -872,3 +872,28 @@ def tabulate(
 
 def show_valuation(d: dict[str, bool]) -> str:
     return ", ".join(f"{'' if val else '¬'}{k}" for k, val in d.items()) or "(always)"
+
+
+def run_block(stmts: list[ast.stmt], env: dict[str, Value], hooks: Hooks,
+              valuation: Optional[Valuation] = None, fn: Optional[ast.FunctionDef] = None):
+    """Interpret a statement list from a given environment.
+
+    Returns (final env, events, outcome) where outcome is None (fell through),
+    ('return', text) / ('raise', exc) / ('break',) / ('continue',).
+    """
+    it = Interp(fn or ast.FunctionDef(name="<block>", args=ast.arguments(
+        posonlyargs=[], args=[], kwonlyargs=[], kw_defaults=[], defaults=[]), body=stmts,
+        decorator_list=[]), hooks, valuation or Valuation({}))
+    it.env = dict(env)
+    outcome = None
+    try:
+        it.block(stmts)
+    except _Return as r:
+        outcome = ("return", r.value)
+    except _Raise as r:
+        outcome = ("raise", r.exc)
+    except _Break:
+        outcome = ("break",)
+    except _Continue:
+        outcome = ("continue",)
+    return it.env, it.events, outcome
